@@ -5,7 +5,9 @@ package main
 
 import (
 	"encoding/json"
+
 	"fmt"
+	"golang.org/x/tools/go/ssa"
 	"os"
 	"path/filepath"
 	"regexp"
@@ -106,6 +108,30 @@ func cmdCheck(prop, tier string) int {
 		}
 		byMod[m] = append(byMod[m], c)
 	}
+	var pureLemmas []*Lemma
+	for _, lm := range db.Lemmas {
+		if lm.Axiom {
+			continue
+		}
+		for _, p := range lm.Props {
+			if p == prop {
+				pureLemmas = append(pureLemmas, lm)
+			}
+		}
+	}
+	sort.Slice(pureLemmas, func(i, j int) bool { return pureLemmas[i].Name < pureLemmas[j].Name })
+	if len(pureLemmas) > 0 {
+		// lemmas are pure; they are checked with whichever module holds their package
+		for _, lm := range pureLemmas {
+			m := moduleOf(lm.Pkg + "/")
+			if m == "" {
+				m = filepath.Join(repoRoot, "client")
+			}
+			if _, ok := byMod[m]; !ok {
+				byMod[m] = nil
+			}
+		}
+	}
 	if len(byMod) == 0 {
 		fmt.Printf("ENGINE-ERROR: no contract carries property %s\n", prop)
 		return 2
@@ -140,6 +166,29 @@ func cmdCheck(prop, tier string) int {
 			}
 			sort.Slice(cs, func(i, j int) bool { return cs[i].Pkg+cs[i].Name < cs[j].Pkg+cs[j].Name })
 			var local []*FuncResult
+			for _, lm := range pureLemmas {
+				lmod := moduleOf(lm.Pkg + "/")
+				if lmod == "" {
+					lmod = filepath.Join(repoRoot, "client")
+				}
+				if lmod != mod {
+					continue
+				}
+				var anyFn *ssa.Function
+				for _, f := range eng.fnIndex {
+					if f.Pkg != nil && f.Pkg.Pkg.Path() == lm.Pkg {
+						anyFn = f
+						break
+					}
+				}
+				if anyFn == nil {
+					for _, f := range eng.fnIndex {
+						anyFn = f
+						break
+					}
+				}
+				local = append(local, eng.verifyLemma(lm, anyFn))
+			}
 			var lwg sync.WaitGroup
 			var lmu sync.Mutex
 			sem := make(chan struct{}, 8)
